@@ -197,9 +197,13 @@ def run_values(spec, rec, lib):
 def run_families(spec, rec, lib):
     rng = random.Random(spec["seed"])
     table = {}
+    tmp = spec.get("scratch")
     for fam in jsonvals.NEAR_COLLISION_FAMILIES:
-        for v in fam:
-            check_value(v, rec, lib, rng, table, None, "family")
+        # written one after the other to the SAME path: 1 / 1.0 / true ... are ==-equal in Python
+        for v in list(fam) + list(reversed(fam)):
+            check_value(v, rec, lib, rng, table, tmp, "family")
+        for v in list(fam) + list(reversed(fam)):
+            check_value({"k": [v]}, rec, lib, rng, table, tmp, "family")
         # also nested occurrences
         for v in fam:
             check_value({"k": v}, rec, lib, rng, table, None, "family")
